@@ -123,7 +123,6 @@ def run_cases(exe, cases, timeout=900):
         if restarts > 8:      # a broken tree: every further case would cost a watchdog period
             out += ["SKIPPED"] * len(rest)
             break
-        restarts += 1
         rc, o, e = vlib.sh([exe], input=("\n".join(rest) + "\n").encode(), timeout=timeout)
         lines = o.split("\n")
         if lines and lines[-1] == "":
@@ -135,11 +134,15 @@ def run_cases(exe, cases, timeout=900):
         if rc == 124:
             out.append("HANG driver timed out")
             rest = rest[len(lines) + 1:]
+            restarts += 1
         elif rc in (3, 4) and lines:
             rest = rest[len(lines):]      # exit 3/4: the last printed line belongs to the case that ended the driver
+            if rc == 3 or "stuck" in lines[-1].split(" sched=")[0]:
+                restarts += 1             # a watchdog / stuck ending costs seconds; a deadlock of an unbalanced plan is legitimate and cheap
         else:
             out.append("DRIVER-DIED rc=%d %s" % (rc, e.strip()[-300:].replace("\n", " | ")))
             rest = rest[len(lines) + 1:]
+            restarts += 1
     return out
 
 
@@ -306,7 +309,21 @@ def check(ctx, exe, cases, with_model=True):
                     mismatches.append((c, mc, d["raw"], mo))
         except vlib.ModelBroken as e:
             model_broken = str(e)
-    stats = {"kinds": kinds, "dfs_schedules": dfs_runs, "replayed_in_model": len(runs), "nontrivial": nontriv, "iout": iout}
+    # chains and pools: the extracted atomic-FIFO models under their own seed-driven schedules must deliver the same result
+    cp = [(c, o) for c, o in zip(cases, iout) if c.split()[0] in ("CHAIN", "POOL") and o.startswith("ok ")]
+    if with_model and cp and model_broken is None:
+        try:
+            model = vlib.ocaml_model("C17")
+            mo = vlib.run_lines(model, [c for c, _ in cp])
+            for (c, o), m in zip(cp, mo):
+                di = dict(x.split("=") for x in o.split()[1:])
+                dm = dict(x.split("=") for x in m.split()[1:]) if m.startswith("ok") else {}
+                keys = ("count", "hash", "head") if c.startswith("CHAIN") else ("handled", "dup", "miss", "stray")
+                if not m.startswith("ok") or any(di.get(k) != dm.get(k) for k in keys):
+                    mismatches.append((c, c, o, m))
+        except vlib.ModelBroken as e:
+            model_broken = str(e)
+    stats = {"kinds": kinds, "dfs_schedules": dfs_runs, "replayed_in_model": len(runs), "chain_pool_model_runs": len(cp), "nontrivial": nontriv, "iout": iout}
     return spec_fail, mismatches, model_broken, stats
 
 
@@ -333,6 +350,7 @@ def run(ctx):
     ctx.coverage["case_kinds"] = stats["kinds"]
     ctx.coverage["schedules_enumerated_exhaustively"] = stats["dfs_schedules"]
     ctx.coverage["schedules_replayed_in_extracted_model"] = stats["replayed_in_model"]
+    ctx.coverage["chain_and_pool_cases_compared_with_extracted_model"] = stats["chain_pool_model_runs"]
     ctx.coverage["translated_functions"] = ["PCQueue::Produce(const T&)", "PCQueue::Consume(T&)", "PCQueue::PCQueue(size_t)"]
     ctx.coverage["generated_files"] = gen_files
     ctx.coverage["input_distribution"] = ("P,C in 1..4, capacity 1..4, 0..5 items per producer (0..40 free-running); schedules: exhaustive DFS with preemption "
@@ -344,13 +362,13 @@ def run(ctx):
                         "sequential consistency; pre-emption only at the hooked scheduling points (one before each semaphore / mutex / slot / cursor operation)",
                         "T::operator= does not throw (the catch(...) paths of Produce/Consume are outside the model)",
                         "translator/pcqueue_ops.py and clang 14's JSON AST are trusted; the regenerated program is additionally exercised by the correspondence",
-                        "chains and the thread pool: tested under seeded jitter, theorems over the atomic bounded-FIFO specification only"]
+                        "chains and the thread pool: theorems over the atomic bounded-FIFO specification (C17_pcqueue_refines_atomic links it to PCQueue step-wise); the real Chain / ThreadPool run under seeded jitter and are compared with the extracted models' results (schedule-independent by C17_chain / C17_thread_pool)"]
     for sig, c, o, m in spec_fail[:6]:
         ctx.report(sig, m, {"case": c, "impl_output": o, "how": "echo '<case>' | c17_driver (harness/drivers/c17_driver.cc)"})
     if not spec_fail:
         if mismatches:
             c, mc, a, b = mismatches[0]
-            ctx.report("correspondence:pcqueue", "extracted model and util::PCQueue disagree on enabled sets / returned values under the same schedule "
+            ctx.report("correspondence:" + ("pcqueue" if c.startswith("PCQ") else "chain" if c.startswith("CHAIN") else "thread-pool"), "extracted model and implementation disagree (PCQueue: enabled sets / returned values under the same schedule; chain / pool: delivered result) "
                        "(the specification oracle accepts the implementation's run)",
                        {"correspondence": "C17 extracted model vs c17_driver", "case": c, "model_case": mc, "impl": a[:1500], "model": b[:1500],
                         "n_mismatches": len(mismatches)}, found=False)
